@@ -135,8 +135,10 @@ MUTANTS = [
      "new": "                        plot_df[series.name] = series\n"},
     {"id": "c09-range-until-plus-dt", "property": "C09", "file": SDS,
      "old": "        for i in timerange(start, until, self.mod.dt, exclusive=False):", "new": "        for i in timerange(start, until+self.mod.dt, self.mod.dt):"},
-    {"id": "c09-step-settings-reach-back", "property": "C09", "file": SDR,
-     "old": "                            for stock_name in sc.sd_simulation.mod.stocks:\n                                sc.sd_simulation.mod.equation(stock_name, step)\n", "new": "                            pass\n"},
+    {"id": "c09-step-settings-rewrite-the-past", "property": "C09", "file": SDR,
+     "old": "                                for name in list(mod.equations.keys()):\n                                    try:\n                                        mod.equation(name, past)\n                                    except Exception:\n                                        pass # not an equation of time alone\n",
+     "new": "                                pass\n",
+     "note": "reversal of 8defaf8 (which subsumes 85d16ad: with everything of the earlier steps evaluated, removing only the pre-evaluation of the current step's stocks no longer changes anything)"},
     {"id": "c09-session-results-drops-last-step", "property": "C09", "file": B,
      "old": "                                for step, step_result in self.session_state[\"results_log\"].items():",
      "new": "                                for step, step_result in list(self.session_state[\"results_log\"].items())[:-1] if len(self.session_state[\"results_log\"]) > 3 else self.session_state[\"results_log\"].items():"},
